@@ -1,0 +1,58 @@
+//go:build verif && linux
+
+package ptracer
+
+import (
+	"syscall"
+	"time"
+
+	unix "golang.org/x/sys/unix"
+
+	"github.com/criyle/go-sandbox/runner"
+)
+
+// Verification hooks (build tag verif): exported views of unexported functions.
+// Nothing here is compiled without the tag.
+
+type verifHandler struct{ act TraceAction }
+
+func (h verifHandler) Handle(*Context) TraceAction { return h.act }
+func (verifHandler) Debug(v ...interface{})        {}
+
+// VerifHandle drives (*ptraceHandle).handle once on a synthetic event. With a pid that does not
+// exist every ptrace request it issues answers ESRCH and is harmless.
+func VerifHandle(pgid, pid int, wstatus uint32, execved, traced bool) (status int, exitStatus int, errStr string, finished bool, execvedAfter bool) {
+	t := &Tracer{Handler: verifHandler{TraceAllow}}
+	ph := newPtraceHandle(t, pgid)
+	ph.execved = execved
+	if traced {
+		ph.traced[pid] = true
+	}
+	s, e, es, f := ph.handle(pid, unix.WaitStatus(wstatus))
+	return int(s), e, es, f, ph.execved
+}
+
+// VerifCheckUsage is (*Tracer).checkUsage.
+func VerifCheckUsage(utimeSec, utimeUsec, maxrssKb int64, timeLimit time.Duration, memLimit runner.Size) (time.Duration, runner.Size, runner.Status) {
+	t := &Tracer{Limit: runner.Limit{TimeLimit: timeLimit, MemoryLimit: memLimit}}
+	var ru unix.Rusage
+	ru.Utime.Sec = utimeSec
+	ru.Utime.Usec = utimeUsec
+	ru.Maxrss = maxrssKb
+	return t.checkUsage(ru)
+}
+
+func VerifClen(b []byte) int       { return clen(b) }
+func VerifHasNull(b []byte) bool   { return hasNull(b) }
+func VerifPageSize() int           { return pageSize }
+func VerifVmReadStr(pid int, addr uintptr, buff []byte) error {
+	return vmReadStr(pid, addr, buff)
+}
+
+// VerifNewContext builds a trap context from a pid and a register file.
+func VerifNewContext(pid int, regs syscall.PtraceRegs) *Context {
+	return &Context{Pid: pid, regs: regs}
+}
+
+// VerifRegs returns the (possibly modified) register file of a context.
+func (c *Context) VerifRegs() syscall.PtraceRegs { return c.regs }
